@@ -97,8 +97,8 @@ Definition src_tcp_Handle : list outline := [
     ]
   ];
   Node "if t.pool != nil" [
-    Node "call t.pool.Release()" [];
-    Node "call recvDone.Wait()" []
+    Node "call recvDone.Wait()" [];
+    Node "call t.pool.Release()" []
   ]
 ].
 Definition src_tcp_recv : list outline := [
